@@ -12,7 +12,7 @@ done
 REPO=${VF_REPO:-/repo}
 need=0
 for f in lib/config.h lib/ext2fs/ext2_err.h lib/ext2fs/ext2_types.h lib/ext2fs/crc32c_table.h \
-	lib/et/com_err.h lib/dirpaths.h lib/support/prof_err.h lib/blkid/blkid_types.h lib/uuid/uuid_types.h; do
+	lib/et/com_err.h lib/ss/ss_err.h lib/dirpaths.h lib/support/prof_err.h lib/blkid/blkid_types.h lib/uuid/uuid_types.h; do
 	[ -f "$REPO/$f" ] || need=1
 done
 if [ $need = 1 ]; then
@@ -24,6 +24,7 @@ if [ $need = 1 ]; then
 		cd "$S" || exit 1
 		./configure >/dev/null 2>&1 || exit 1
 		make -j8 -C lib/et >/dev/null 2>&1
+		make -j8 -C lib/ss ss_err.h >/dev/null 2>&1
 		make -j8 -C lib/ext2fs ext2_err.h crc32c_table.h >/dev/null 2>&1
 		make -C lib/support prof_err.h >/dev/null 2>&1
 		make -C lib dirpaths.h >/dev/null 2>&1
